@@ -73,6 +73,9 @@ func c12(w *core.World, r *core.Report) {
 	r.Rule("R12.4", "bulk argument framing and ParseArgs slicing", 2)
 	ruleBulkFraming(w, r)
 
+	r.Rule("R12.7", "the encoder's pre-formatted integer table is filled over its whole length and read with the same offset", 1)
+	ruleItosTable(w, r)
+
 	r.Rule("R12.6", "encode side: the three sibling encoders frame a bulk argument as '$' ≺ decimal length of the same bytes (at least one digit) ≺ CRLF ≺ bytes ≺ CRLF, a command as '*' ≺ argument count ≺ arguments", 8)
 	ruleEncoders(w, r)
 
@@ -669,4 +672,144 @@ func ruleEncoders(w *core.World, r *core.Report) {
 		})
 		r.Check(msg == "", "client.encoder.encodeBulkBytes/framing", f.Pos(), "a bulk value must be written as decimal len(b) ≺ CRLF ≺ b ≺ CRLF: %s", msg)
 	}
+}
+
+// ---------------------------------------------------------------- R12.7 the pre-formatted integer table of the encoder
+
+// ruleItosTable: client.encoder writes lengths and counts through itos, which
+// looks small integers up in a table filled once at start-up. The table must be
+// filled over its whole length with entry k = decimal(k - off), and itos must
+// read entry i + off under 0 <= i + off < len(table): a fill loop that stops
+// early leaves "" entries, and a length in that window is written as "$\r\n".
+func ruleItosTable(w *core.World, r *core.Report) {
+	f := fn(w, r, "pkg/redis/client.itos")
+	if f == nil {
+		return
+	}
+	// the table: the global slice indexed in itos
+	var tab *ssa.Global
+	var readOff int64
+	okRead := false
+	for _, in := range core.OwnInstrs(f) {
+		ia, ok := in.(*ssa.IndexAddr)
+		if !ok {
+			continue
+		}
+		ld, ok := ia.X.(*ssa.UnOp)
+		if !ok {
+			continue
+		}
+		g, ok := ld.X.(*ssa.Global)
+		if !ok {
+			continue
+		}
+		tab = g
+		// index = param + K
+		idx := core.Unwrap(ia.Index)
+		if b, isB := idx.(*ssa.BinOp); isB && len(f.Params) == 1 && core.Unwrap(b.X) == ssa.Value(f.Params[0]) {
+			if k, isK := core.ConstInt(b.Y); isK {
+				switch b.Op {
+				case token.ADD:
+					readOff, okRead = k, true
+				case token.SUB:
+					readOff, okRead = -k, true
+				}
+			}
+		}
+		// guarded by 0 <= idx < len(table)
+		lower, upper := false, false
+		for _, fct := range core.FactsAt(ia.Block()) {
+			c, ok := core.FactCmp(fct)
+			if !ok || core.Unwrap(c.X) != idx {
+				continue
+			}
+			if c.Op == token.GEQ && isConstInt(0)(c.Y) {
+				lower = true
+			}
+			if c.Op == token.LSS {
+				if call, isC := core.Unwrap(c.Y).(*ssa.Call); isC && isBuiltin(call, "len") {
+					upper = true
+				}
+			}
+		}
+		okRead = okRead && lower && upper
+	}
+	if tab == nil {
+		r.OK("client.itos/table", f.Pos(), "no table: integers are formatted directly")
+		return
+	}
+	// the fill: in the package initialiser (or wherever the table is stored to)
+	okFill, why := false, "no fill loop found"
+	for _, g := range w.FuncsIn("pkg/redis/client") {
+		for _, in := range core.OwnInstrs(g) {
+			st, ok := in.(*ssa.Store)
+			if !ok {
+				continue
+			}
+			ia, ok := st.Addr.(*ssa.IndexAddr)
+			if !ok {
+				continue
+			}
+			ld, ok := ia.X.(*ssa.UnOp)
+			if !ok || ld.X != ssa.Value(tab) {
+				continue
+			}
+			from, bound, okR := indexRange(ia.Index)
+			if !okR || from != 0 {
+				why = "the fill does not run from index 0 upwards"
+				continue
+			}
+			whole := false
+			if call, isC := core.Unwrap(bound).(*ssa.Call); isC && isBuiltin(call, "len") {
+				if l2, isL := call.Call.Args[0].(*ssa.UnOp); isL && l2.X == ssa.Value(tab) {
+					whole = true
+				}
+			}
+			if k, isK := core.ConstInt(bound); isK {
+				// a constant bound: it must be the length the table was made with
+				for _, i2 := range core.OwnInstrs(g) {
+					if mk, isMk := i2.(*ssa.MakeSlice); isMk {
+						if l, isL := core.ConstInt(mk.Len); isL && l == k {
+							for _, ref := range *mk.Referrers() {
+								if s2, isS := ref.(*ssa.Store); isS && s2.Addr == ssa.Value(tab) {
+									whole = true
+								}
+							}
+						}
+					}
+				}
+			}
+			if !whole {
+				why = "the fill loop does not cover the whole table"
+				continue
+			}
+			// entry k = decimal(k + A) with A = -readOff
+			val := core.Unwrap(st.Val)
+			if c, isC := val.(*ssa.Call); isC && (core.ResolveCall(c).Name == "strconv.Itoa" || core.ResolveCall(c).Name == "strconv.FormatInt") {
+				arg := core.Unwrap(c.Call.Args[0])
+				var a int64
+				okA := false
+				if b, isB := arg.(*ssa.BinOp); isB && core.Unwrap(b.X) == core.Unwrap(ia.Index) {
+					if k, isK := core.ConstInt(b.Y); isK {
+						switch b.Op {
+						case token.ADD:
+							a, okA = k, true
+						case token.SUB:
+							a, okA = -k, true
+						}
+					}
+				} else if arg == core.Unwrap(ia.Index) {
+					a, okA = 0, true
+				}
+				if okA && okRead && a == -readOff {
+					okFill = true
+				} else {
+					why = "entry k does not hold decimal(k - offset) for the offset itos reads with"
+				}
+			} else {
+				why = "an entry is not a decimal rendering of its index"
+			}
+		}
+	}
+	r.Check(okFill && okRead, "client.itos/table", f.Pos(), "the pre-formatted integer table and its lookup disagree (%s; lookup guarded and offset recognised: %v): a length or count that hits an unfilled or shifted entry is written wrongly, with no error", why, okRead)
 }
